@@ -1,11 +1,124 @@
 /-
-C10 — parse results are fixed points.  Property theorems only.
+C10 — parse results are fixed points: re-parsing or validating changes nothing.
+Property theorems only; the proofs are in Jap/Lemmas/AdaptIdem.lean.
+
+`adapt O false none t` is the adapter as `validate` / `parse_object` apply it to a value that is already in the
+configuration (no original string).  `good t`: every Union member inside `t` is `uSafe`, i.e. free of `Any`,
+`Set`, `Dict[int, _]` and of `Literal`s with non-string members; outside Unions every construct of the
+grammar is allowed (`Any`, `Set`, `Dict[int, _]`, arbitrary `Literal`s included).
 -/
 import Jap.Core.Adapt
 import Jap.Gen.AdaptTables
+import Jap.Lemmas.AdaptIdem
 namespace Jap.Props.C10
 open Jap.Adapt
 
+/-- the model was written against the current branch order of `adapt_typehints` -/
 theorem tie_branch_order : Jap.Gen.adaptBranches = branchOrder := by rfl
+
+/-! ### the theorems -/
+
+/-- **C10_adapt_mono**: a Union member that rejected the raw value also rejects the value another member
+    made of it (all loaders, all values; both types `uSafe`) -/
+theorem C10_adapt_mono (O : Oracle) (t t' : Ty) (v w : Val) (e : Err)
+    (hu : uSafe t = true) (hu' : uSafe t' = true)
+    (h1 : adapt O false .none t v = .ok w) (h2 : adapt O false .none t' v = .error e) :
+    ∃ e', adapt O false .none t' w = .error e' :=
+  mono O t t' v w e hu hu' h1 h2
+
+/-- **C10_adapt_idem**: adapting an adapted value returns it unchanged — for every loader, every value and every
+    type hint whose Union members are `uSafe` -/
+theorem C10_adapt_idem (O : Oracle) (t : Ty) (v w : Val) (hg : good t = true)
+    (h : adapt O false .none t v = .ok w) : adapt O false .none t w = .ok w :=
+  idem O t v w hg h
+
+/-- in particular a result passes the validation pass and `parse_object` returns it unchanged -/
+theorem C10_validate (O : Oracle) (t : Ty) (v w : Val) (hg : good t = true)
+    (h : adapt O false .none t v = .ok w) : accepts O t w = true := by
+  simp [accepts, idem O t v w hg h]
+
+/-- the hypothesis covers every construct of the grammar, at any depth, outside Union members … -/
+example : good (.dict .int (.set (.tuple [.any, .literal [.int 1, .bool true], .union [.int, .float, .str, .none]]))) = true := by rfl
+
+/-- … and Unions over everything but Any / Set / Dict[int, _] / non-string Literals -/
+example : good (.union [.list (.union [.int, .enum 0 ["a"]]), .dict .str (.tuple [.float, .literal [.str "x"]]),
+    .tupleVar .bool, .none, .str]) = true := by rfl
+
+/-- a non-trivial instance: text → int, int → float, list → tuple, name → member, all fixed by the second pass -/
+example :
+    let O : Oracle := ⟨fun s => if s = "1" then some (.int 1) else some (.str s), fun s => some (.str s), fun _ => "?", fun _ => .none⟩
+    let t : Ty := .list (.union [.tuple [.float, .enum 0 ["red"]], .int, .str])
+    adapt O false .none t (.list [.list [.str "1", .str "red"], .str "1", .str "x"])
+      = .ok (.list [.tuple [.flt "1.0", .enum 0 "red"], .int 1, .str "x"]) ∧
+    adapt O false .none t (.list [.tuple [.flt "1.0", .enum 0 "red"], .int 1, .str "x"])
+      = .ok (.list [.tuple [.flt "1.0", .enum 0 "red"], .int 1, .str "x"]) := by
+  exact ⟨rfl, rfl⟩
+
+/-! ### where the full statement fails
+
+Full statement (FALSE for the code and hence for the model):
+  `theorem C10_adapt_idem_full : adapt O false none t v = .ok w → adapt O false none t w = .ok w`
+Each excluded construct has a counterexample; all four are reproduced on the real parser by the harness
+(known findings C10-union-set-dedup-second-pass, C10-union-any-second-pass, C10-literal-pyeq-second-pass). -/
+
+def O0 : Oracle where
+  yaml s := if s = "1" then some (.int 1) else if s = "[1]" then some (.list [.int 1]) else some (.str s)
+  loadAny s := if s = "[1]" then some (.list [.int 1]) else some (.str s)
+  bigFlt _ := "?"
+  intOf s := if s = "1" then some 1 else if s = "01" then some 1 else .none
+
+/-- Set: `Union[Set[float], Set[Union[int, bool]]]` on `[1, True]` — the element that made the first member
+    reject is dropped by `set()`, the second pass stops at the first member and converts -/
+theorem C10_idem_fails_set :
+    let t : Ty := .union [.set .float, .set (.union [.int, .bool])]
+    adapt O0 false .none t (.list [.int 1, .bool true]) = .ok (.set [.int 1]) ∧
+    adapt O0 false .none t (.set [.int 1]) = .ok (.set [.flt "1.0"]) := by
+  exact ⟨rfl, rfl⟩
+
+/-- Dict[int, _]: two keys that cast to the same int — the value that made the first member reject is overwritten -/
+theorem C10_idem_fails_intkey :
+    let t : Ty := .union [.dict .str .float, .dict .int .int]
+    adapt O0 false .none t (.dict [(.str "1", .str "a"), (.str "01", .int 5)]) = .ok (.dict [(.int 1, .int 5)]) ∧
+    adapt O0 false .none t (.dict [(.int 1, .int 5)]) = .ok (.dict [(.int 1, .flt "5.0")]) := by
+  exact ⟨rfl, rfl⟩
+
+/-- Any: `List[Union[Tuple[int, ...], Any]]` on `['[1]']` — Any loads the text, the Tuple member takes the result -/
+theorem C10_idem_fails_any :
+    let t : Ty := .list (.union [.tupleVar .int, .any])
+    adapt O0 false .none t (.list [.str "[1]"]) = .ok (.list [.list [.int 1]]) ∧
+    adapt O0 false .none t (.list [.list [.int 1]]) = .ok (.list [.tuple [.int 1]]) := by
+  exact ⟨rfl, rfl⟩
+
+/-- Literal with `==`: the text `'1'` is not `True`, the int `1` is -/
+theorem C10_idem_fails_literal :
+    let t : Ty := .union [.list (.union [.literal [.bool true], .tupleVar .int]), .list (.union [.int, .list .int])]
+    adapt O0 false .none t (.list [.str "1", .list [.int 5]]) = .ok (.list [.int 1, .list [.int 5]]) ∧
+    adapt O0 false .none t (.list [.int 1, .list [.int 5]]) = .ok (.list [.int 1, .tuple [.int 5]]) := by
+  exact ⟨rfl, rfl⟩
+
+/-- monotonicity itself fails there (the second pass of the Set example, seen from the first member) -/
+theorem C10_mono_fails_set :
+    adapt O0 false .none (.set (.union [.int, .bool])) (.list [.int 1, .bool true]) = .ok (.set [.int 1]) ∧
+    adapt O0 false .none (.set .float) (.list [.int 1, .bool true]) = .error .value ∧
+    adapt O0 false .none (.set .float) (.set [.int 1]) = .ok (.set [.flt "1.0"]) := by
+  exact ⟨rfl, rfl, rfl⟩
+
+/-! ### serialisation (the same function with `serialize = true`), the root of the Union serialisation family
+
+`ser O t w = adapt O true none t w`.  When serialising, the Enum branch returns a non-member unchanged, so a
+Union stops there (row 5f of DESIGN section 7; known finding C10-union-serialisation). -/
+
+/-- fine as long as no later member needs a conversion … -/
+theorem C10_ser_union_enum_ok : ser O0 (.union [.enum 0 ["red"], .int]) (.int 5) = .ok (.int 5) := by rfl
+
+/-- … but the member of another Enum class is left in the data (`dump` then raises) -/
+theorem C10_ser_union_enum_swallows :
+    ser O0 (.union [.enum 2 ["a"], .enum 0 ["red", "green"]]) (.enum 0 "green") = .ok (.enum 0 "green") ∧
+    ser O0 (.union [.enum 0 ["red", "green"], .enum 2 ["a"]]) (.enum 0 "green") = .ok (.str "green") := by
+  exact ⟨rfl, rfl⟩
+
+/-- and a tuple that a later member would have written as a list stays a tuple -/
+theorem C10_ser_union_enum_tuple :
+    ser O0 (.union [.enum 0 ["red"], .tupleVar .int]) (.tuple [.int 1]) = .ok (.tuple [.int 1]) := by rfl
 
 end Jap.Props.C10
